@@ -84,6 +84,8 @@ def format_parts(t):
             how = ""
             if a[0] == "call":
                 how = a[1].rsplit("::", 1)[-1]
+                if len(a) > 4 and a[4]:
+                    how += ":" + a[4]     # generic argument = type of the formatted value
                 a = a[2][0] if a[2] else ("unknown",)
             while a[0] in ("ref", "deref"):
                 a = a[1]
